@@ -495,6 +495,9 @@ def annotate_fn(sf, item, blk, counts, meta, mode, qual_name, extra_ensures=None
              'n_invariants': 0, 'mode': mode, 'props': blk.opts.get('props', '').split(',') if blk.opts.get('props') else []}
 
     if mode == 'stub' or blk.opts.get('assumed'):
+        for rule, old, new, cnt in blk.rewrites:
+            if sig_text.count(old):
+                sig_text = sig_text.replace(old, new)
         if blk.opts.get('assumed'):
             fmeta['mode'] = 'assumed'
             counts.bump('R9')
@@ -529,10 +532,11 @@ def annotate_fn(sf, item, blk, counts, meta, mode, qual_name, extra_ensures=None
 
     # rewrites
     for rule, old, new, cnt in blk.rewrites:
-        n = body.count(old)
+        n = body.count(old) + sig_text.count(old)
         if n != cnt:
             raise Drift('%s: rewrite %s expects %d match(es) of %r, found %d' % (qual_name, rule, cnt, old, n))
         body = body.replace(old, new)
+        sig_text = sig_text.replace(old, new)
         counts.bump(rule, cnt)
 
     body = apply_ref_patterns(body, counts)
@@ -676,6 +680,7 @@ def assemble(unit, mode='verify', vacuity=False, seen=None, top=True, only_props
             sub = assemble(words[1], mode='stub', seen=seen, top=False)
             out.append('// ---- unit %s (imported contracts) ----' % words[1])
             out.append(sub.text)
+            out.append('// ---- end unit %s ----' % words[1])
             for m in sub.meta:
                 m2 = dict(m)
                 m2['mode'] = 'imported' if m['mode'] != 'assumed' else 'assumed'
